@@ -169,8 +169,11 @@ CHECKS = {
              "(at quiescence every node has the primary's databases, values, live status and versions; "
              "nothing pending).",
         note="links simulated (one FIFO per direction per dialled connection), per-line transport glue "
-             "re-implemented in the harness; roles set directly (elections are C07); the design-level cluster "
-             "model is the trace specification itself, no stand-alone TLC exploration of the protocol yet",
+             "re-implemented in the harness; roles set directly (elections are C07); NunCluster (data path: "
+             "set / versioned set / increment / remove at any node, replication loop, copies, acks, echo) is "
+             "explored exhaustively by TLC for one and two commands on 2-3 nodes (invariants Converged modulo "
+             "the recorded deviations, NothingPending, Budget; liveness EventuallyQuiet) and its schedules are "
+             "replayed step by step on the real nodes (drift measured, 0 on the pinned tree)",
         technique="TLA+ reference monitor (ClusterMonitor) + TLC trace validation of real multi-node runs on simulated links",
         design="DESIGN.md §5 C04"),
     "C14": dict(
